@@ -213,6 +213,7 @@ def choose_variant(P, rnd):
         v["designation"] = "biorthogonal"; v["carrier"] = "dense"; v["int_h0"] = False
     if v["designation"] in ("blockseries", "blockseries-blocked"): v["container"] = "dict"
     if v["designation"] in ("indices", "blockseries") and rnd.random() < 0.5: v["interleave"] = True
+    if v["designation"] == "vectors" and v["carrier"] != "dense" and rnd.random() < 0.6: v["sparse_vectors"] = True
     # other units: the whole Hamiltonian times a power of two (exact in floating point), the absolute tolerance given in the same units
     v["scale_exp"] = rnd.choice([0, 0, 0, 0, 0, -70, -30, 40]) if not v["int_h0"] else 0
     return v
@@ -285,6 +286,8 @@ def run_impl_numeric(P, requests, v, rnd):
     if v["designation"] in ("indices", "blockseries"): kw["subspace_indices"] = idx_labels
     if v["designation"] == "vectors":
         eye = np.eye(d); kw["subspace_eigenvectors"] = [eye[:, off[b]:off[b + 1]] for b in range(N)]
+        if v.get("sparse_vectors"):      # eigenvectors in the carrier of the Hamiltonian (any mixture of arrays, sparse arrays and legacy sparse matrices)
+            kw["subspace_eigenvectors"] = [conv(x) for x in kw["subspace_eigenvectors"]]
     if v["container"] == "list":
         H = [H[zero_n]] + [H.get(tuple(int(a == b) for b in range(k)), np.zeros((d, d)) if v["designation"] != "blocked" else None) for a in range(k)]
         if any(x is None for x in H):      # a missing first-order term in block form: fall back to the dict
@@ -494,6 +497,7 @@ def main(seed, ncases, driver, out, mode="all"):
             for kk in ("carrier", "designation", "container"): num_stats[kk + "=" + variant[kk]] = num_stats.get(kk + "=" + variant[kk], 0) + 1
             if variant["int_h0"]: num_stats["int_h0"] = num_stats.get("int_h0", 0) + 1
             if variant.get("level_rotation"): num_stats["level_rotation"] = num_stats.get("level_rotation", 0) + 1
+            if variant.get("sparse_vectors"): num_stats["sparse_vectors"] = num_stats.get("sparse_vectors", 0) + 1
             if variant.get("scale_exp"): num_stats["units=2^%d" % variant["scale_exp"]] = num_stats.get("units=2^%d" % variant["scale_exp"], 0) + 1
             try:
                 num = run_impl_numeric(P, reqs, variant, rnd)
